@@ -1703,7 +1703,8 @@ def rule_lookup_case(chk, idx):
     R = Resources(idx)
     keycase = slot_key_case(idx, R)
     mods = [m for n, m in sorted(idx.mods.items()) if n.startswith(PKG) and '.resources' not in n]
-    funcs = [(m, c, f) for m in mods for (mm, c, f) in idx.functions(m) if c is not None]
+    funcs = [(m, c, f) for m in mods for (mm, c, f) in idx.functions(m) if c is not None
+             and any(isinstance(n_, ast.Call) for n_ in ast.walk(f))]
     by_name = {}
     for m, c, f in funcs:
         by_name.setdefault(f.name, []).append((m, c, f))
@@ -1713,11 +1714,11 @@ def rule_lookup_case(chk, idx):
         names = [a.arg for a in f.args.args if a.arg not in ('self', 'cls')]
         pstate[(c, f.name)] = {n_: 'top' for n_ in names}
     rstate = {}      # method name -> return state (only names defined once per class family are kept simple: by name)
-    for _ in range(4):
+    for _ in range(10):
         incoming = {k: {n_: [] for n_ in v} for k, v in pstate.items()}
         new_r = {}
         for m, c, f in funcs:
-            params = {k: (None if v == 'top' else v) for k, v in pstate[(c, f.name)].items()}
+            params = {k: (CaseVal('T', True) if v == 'top' else v) for k, v in pstate[(c, f.name)].items()}
             if f.name in ENTRY_METHODS:
                 params = {k: None for k in params}
             cf = CaseFlow(f, {k: v for k, v in params.items() if v is not None}, rstate)
